@@ -52,6 +52,7 @@ def schema(T, with_cons=True):
 
 
 _SHARED = {}
+_OWN = {}
 
 
 def _schema(T, with_cons=True):
@@ -78,6 +79,11 @@ def _schema1(T, with_cons=True):
     if k in SIMPLE_CLASS:
         if k in ('INTEGER', 'ENUMERATED') and T.get('named'):
             obj = SIMPLE_CLASS[k](namedValues=namedval.NamedValues(*[(n, v) for n, v in T['named']]))
+        elif T.get('own_typeid'):
+            # an application subclass with a type ID of its own (the RFC 1902 idiom: class Counter32(Integer): typeId = ...);
+            # codecs find its payload codec through the base tag
+            base_cls = SIMPLE_CLASS[k]
+            obj = _OWN.setdefault(k, type(base_cls.__name__ + 'App', (base_cls,), {'typeId': base_cls.getTypeId()}))()
         elif T.get('alias') and k in ('TeletexString', 'VisibleString'):
             obj = (char.T61String if k == 'TeletexString' else char.ISO646String)()       # the library's alias classes
         else:
